@@ -46,6 +46,8 @@ HOSTILE = [
     "module ctx\ninteger, pa\nuse \ncontains\nsubroutine s(a)\ninteger, inten\ninteger, intent(i\ncall \ntype(\nprocedure(\nx%\ncall a%\nuse ctx, only: \n"
     "import \nmodule procedure \nend \nend subroutine\nend module ctx\n",
     "module dp\ntype t\n type(t), pointer :: n\n integer :: v\nend type\ncontains\nsubroutine s(x)\n type(t) :: x\n x%" + "n%" * 45 + "v = 1\n call q(x%" + "n%" * 120 + ")\nend subroutine\nend module dp\n",
+    "module im\ntype :: t1\nend type\ntype :: t2\nend type\ninterface\nsubroutine a(x)\nimport, all\nimport, only: t2\nclass(t1) :: x\nend subroutine\nsubroutine b(x)\nimport t1\nimport\nimport, none\n"
+    "class(t2) :: x\nend subroutine\nend interface\nend module im\n",
     "import :: x\nprogram p\nimport, none\ninterface\nsubroutine s()\nimport\nend subroutine\nend interface\nx = 1\nend program\n",
 ]
 
@@ -300,7 +302,7 @@ def history_phase(ctx, sw, src):
     """positional requests while buffers are edited but not saved, and after a file is deleted and closed"""
     a = os.path.join(src, "hist_consts.f90")
     b = os.path.join(src, "hist_user.f90")
-    inc = os.path.join(src, "hist_short.inc")
+    inc = os.path.join(src, "hist_short_inc.f90")
     sw.open(a, "module hist_consts\n  implicit none\n  real :: hist_tol = 1.0\n  type :: hist_t\n    integer :: k\n  end type\ncontains\n  subroutine hist_init(x)\n    real :: x\n"
                "  end subroutine\nend module hist_consts\n")
     sw.open(b, "module hist_user\n  use hist_consts\n  implicit none\n  type(hist_t) :: obj\ncontains\n  subroutine run(y)\n    real :: y\n    y = hist_tol\n    call hist_init(y)\n"
@@ -325,7 +327,8 @@ def history_phase(ctx, sw, src):
     with open(inc, "w") as f:
         f.write("integer :: hist_z\n")
     p = os.path.join(src, "hist_inc.f90")
-    sw.open(p, "program hist_inc\n implicit none\n\n\n\n include 'hist_short.inc'\n hist_z = 1\nend program hist_inc\n")
+    sw.open(inc)
+    sw.open(p, "program hist_inc\n implicit none\n\n\n\n include 'hist_short_inc.f90'\n hist_z = 1\nend program hist_inc\n")
     resp, _ = impl.request(sw.srv, sw.conn, "textDocument/definition", impl.pos_params(p, 5, 12))
     if resp and resp[0] == "r" and resp[2]:
         from .c05 import impl_path
